@@ -200,6 +200,8 @@ class Effects:
             it = strip_sites(host_fa.term_of(n.iter, host_fa.cfg.node_of(n)))
             prefiltered = False
             src_ = ("app", ("global", "ast.iter_fields"), (("param", host_param),), ())
+            if it[0] == "comp" and it[1] in ("GeneratorExp", "ListComp") and len(it[3]) == 1 and it[3][0][0][:2] == src_[:2] and len(it[3][0][0][2]) == 1 and it[3][0][0][2][0] in (base, t):
+                src_ = it[3][0][0]
             if it[0] == "comp" and it[1] in ("GeneratorExp", "ListComp") and len(it[3]) == 1 and it[3][0][0] == src_:
                 # the (field, value) pairs drawn from a generator that keeps exactly the list-valued fields
                 el_ = ("elem", src_)
@@ -208,7 +210,8 @@ class Effects:
                 if ident and tuple(it[3][0][1]) == want_c:
                     prefiltered = True
                     it = src_
-            if not (it[0] == "app" and it[1] == ("global", "ast.iter_fields") and it[2] == (("param", host_param),)):
+            # the fields may be listed from the visited node or from its shallow copy (same names, same values)
+            if not (it[0] == "app" and it[1] == ("global", "ast.iter_fields") and len(it[2]) == 1 and it[2][0] in (("param", host_param), base, t)):
                 continue
             if not (isinstance(n.target, ast.Tuple) and len(n.target.elts) == 2 and all(isinstance(e, ast.Name) for e in n.target.elts)):
                 continue
